@@ -100,7 +100,7 @@ def _probe():
     """concrete observations of the real constructors / accessors (what the clauses above say, on a few values)"""
     from curtsies.formatstring import Chunk, FmtStr, FrozenAttributes
     out = []
-    for text in ("", "ab", " x\n", "\uff25\u0301"):
+    for text in ("", "ab", " x\n", "\uff25\u0301", "caf\udce9", "\ufeffab", "x\ud83d\ude00y", "\ud800", "\x00z", "ab\ufeff", "\x1b[1m"):
         for at in (None, {}, {"fg": 31}, {"bold": False, "bg": 44}):
             c = Chunk(text, at) if at is not None else Chunk(text)
             want = dict(at or {})
@@ -116,7 +116,7 @@ def _probe():
     except ValueError:
         pass
     for n in range(0, 4):
-        runs = [Chunk("ab"[: k % 3], {"fg": 31 + k}) for k in range(n)]
+        runs = [Chunk("ab"[: (k + n) % 3], {"fg": 31 + k}) for k in range(n)]      # (empty formatted runs, first / last / only, included)
         given = tuple(runs)
         f = FmtStr(*given)
         if list(f.chunks) != runs or not isinstance(f.chunks, list) or f.chunks is given:
